@@ -26,7 +26,7 @@ CLAIMS = {
    note=TB+"Daemon half: index/size checks of the per-ring messages and vmm_va_to_gpa under Kani's overflow checks (c14_u_*, c13_u_*); the memory-table and log-base handlers need memory() and are not covered. Body <= 72 bytes, <= 2 regions, config payload <= 8 bytes, <= 3 descriptors; the 33-descriptor case is outside.",
    design="4/C05"),
  "C06": dict(
-   text=E_FE+": every reply-bearing and acknowledged operation returns Ok only if the bytes are a reply to that very request (REPLY flag, same code, valid header and body, descriptors exactly when defined) and never fabricates a value; plus recv_body segmentation harnesses; U level (c06_u_*): FrontendInternal::is_reply_for / recv_reply<u64> / wait_for_ack / recv_reply_with_files with ALL 96 header bits of the peer's reply symbolic. ",
+   text=E_FE+": every reply-bearing and acknowledged operation returns Ok only if the bytes are a reply to that very request (REPLY flag, same code, valid header and body, descriptors exactly when defined) and never fabricates a value; GET_CONFIG reply classes incl. a payload shorter than the body's size word claims; plus recv_body segmentation harnesses; U level (c06_u_*): FrontendInternal::is_reply_for / recv_reply<u64> / wait_for_ack / recv_reply_with_files with ALL 96 header bits of the peer's reply symbolic. ",
    note=TB+"Backend-to-frontend proxy acks (unit level) and the FrontendReqHandler server (E level, arbitrary bodies/descriptors) are included; the GPU proxy's reply parsing is covered for get_protocol_features and update_dmabuf_scanout (conformant, foreign code, REPLY bit missing, undefined flag bit; 0..=1 descriptors) - tractable since Mutex::lock is stubbed (see C10); get_display_info / get_edid replies exceed the wire bound. Reply control words are concrete classes at E level and fully symbolic at U level.",
    design="4/C06"),
  "C07": dict(
@@ -39,7 +39,7 @@ CLAIMS = {
    design="4/C08"),
  "C09": dict(
    text="Ghost descriptor table over the E-level backend runs (valid, invalid, over-stuffed requests with 0..=2 descriptors) and the frontend runs: every descriptor installed by recvmsg is either handed to the handler by value exactly once or closed exactly once by the library when handle_request / the frontend call returns; no double close; descriptors lent for transmission (RawFd / &EventFd arguments) are never closed. U-level: handle_vring_fd_request and check_attached_files with 0..=3 files.",
-   note=TB+"Model level: close(2)/OwnedFd::drop are stubs over the ghost table. vhost-user-backend: replacing/clearing a ring's kick/call/err descriptor closes the previous one exactly once (c09_u_vring_fds at VringState level; the C11 step harnesses for SET_VRING_KICK / GET_VRING_BASE at handler level: the replaced kick descriptor is closed, no installed one is). Code that inspects a received descriptor through a foreign function (getsockopt, fstat, ...) cannot be modelled or stubbed in Kani 0.68: such a change makes the check inconclusive (exit 2), see seeded/C09-a. Teardown at arbitrary points and >32 descriptors are not covered.",
+   note=TB+"Model level: close(2)/OwnedFd::drop are stubs over the ghost table. vhost-user-backend: replacing/clearing a ring's kick/call/err descriptor closes the previous one exactly once (c09_u_vring_fds at VringState level; the C11 step harnesses for SET_VRING_KICK / GET_VRING_BASE at handler level: the replaced kick descriptor is closed, no installed one is). Code that inspects a received descriptor through a foreign function (getsockopt, fstat, ...) cannot be modelled or stubbed in Kani 0.68: such a change makes the check inconclusive (exit 2), see seeded/C09-a. Descriptor batches around the per-message limit: recv_header with 32, 33 and 64 attached descriptors (counted ghost descriptors): installed == handed on or closed; descriptors attached to the BODY segment of a request (c09_e_fds_on_body_*) are closed, never leaked. Teardown at arbitrary points are not covered.",
    design="4/C09"),
  "C10": dict(
    text="Reduction to the endpoint lock: every path to the shared socket goes through the handle's Mutex, so another caller can interleave with a transaction only at a socket syscall made while the lock is free. The syscall stubs (raw_sendmsg/raw_recvmsg) of all E-level harnesses of Frontend (every operation), Backend (5 operations) and GpuBackend (send-only operations, get_protocol_features and update_dmabuf_scanout with conformant and non-conformant replies) try_lock the endpoint at every call: the lock is never free at a socket call and is free again on return. std::sync::Mutex::lock itself is replaced by a stub that counts acquisitions and takes the lock with try_lock: every receive must run under the SAME acquisition as the socket call before it (request and reply in one critical section), and a lock() on a mutex the call already holds is reported as self-deadlock (also on error paths).",
@@ -104,7 +104,7 @@ m = {
  ],
  "checks": [],
  "not_applicable": [],
- "notes": "Exit codes of every command: 0 held, 1 VIOLATION line, 2 inconclusive (timeout/OOM/unwinding bound/vacuous cover/non-reproducing counterexample/code reaching a construct Kani cannot model). Known findings: known_findings.json.",
+ "notes": "Harnesses that no longer compile against the tree under test (they call private items) are left out and reported inconclusive, the rest still runs (DESIGN 2.2). Exit codes of every command: 0 held, 1 VIOLATION line, 2 inconclusive (timeout/OOM/unwinding bound/vacuous cover/non-reproducing counterexample/code reaching a construct Kani cannot model). Known findings: known_findings.json.",
 }
 for pid in ALL:
     if pid in CLAIMS:
